@@ -443,6 +443,23 @@ class RecorderPolicy(RepoPolicy):
     def iter_raises(self, node, frame):
         return frozenset()
 
+    def call_binding_raises(self, call, target, frame):
+        # the intercepted call's own **kwargs splatted into a framework function that has named parameters of its own: a keyword of the
+        # service call that happens to be called like one of them is a TypeError raised by the framework
+        fn = frame.func.node
+        kw = fn.args.kwarg.arg if getattr(fn, 'args', None) is not None and fn.args.kwarg is not None else None
+        if kw is None or frame.parent is not None:
+            return frozenset()
+        if not any(k.arg is None and isinstance(k.value, ast.Name) and k.value.id == kw for k in call.keywords):
+            return frozenset()
+        callee = getattr(target, 'func', None)
+        if callee is None or target.role == 'body':
+            return frozenset()
+        named = [p for p in callee.params if p != 'self']
+        if not named:
+            return frozenset()
+        return frozenset({self.excm.atom_of('TypeError')})
+
     def subscript_store_raises(self, target, frame):
         # a store into the active recording is Recording.__setitem__ of the shipped recording classes
         if _self_attr(target.value) == self.roles.active:
